@@ -46,6 +46,12 @@ pub fn snap(s: &mz_stream) -> (*const u8, c_uint, c_ulong, *mut u8, c_uint, c_ul
 
 /// mz_inflateInit2 + loop of mz_inflate(MZ_NO_FLUSH) + mz_inflateEnd
 pub fn mz_inflate_run(data: &[u8], zlib: bool, in_chunks: &[u32], out_sizes: &[u32], out_cap: usize) -> Result<CapiRun, Violation> {
+    mz_inflate_run_f(data, zlib, in_chunks, out_sizes, out_cap, false)
+}
+
+/// as above; with `finish` the calls made once all input has been offered use MZ_FINISH (unless that
+/// would be the very first call)
+pub fn mz_inflate_run_f(data: &[u8], zlib: bool, in_chunks: &[u32], out_sizes: &[u32], out_cap: usize, finish: bool) -> Result<CapiRun, Violation> {
     let mut s = mz_stream::default();
     // SAFETY: s is a valid zeroed stream object
     let rc = unsafe { mz_inflateInit2(&mut s, if zlib { 15 } else { -15 }) };
@@ -70,7 +76,8 @@ pub fn mz_inflate_run(data: &[u8], zlib: bool, in_chunks: &[u32], out_sizes: &[u
         s.avail_out = osz as c_uint;
         let before = snap(&s);
         // SAFETY: pointers and lengths describe live buffers
-        let rc = guard(|| unsafe { mz_inflate(&mut s, 0) }).map_err(|pm| Violation::new(panic_sig("mz_inflate", &pm), format!("mz_inflate unwound: {pm}")))?;
+        let fl = if finish && avail_end == data.len() && run.calls > 0 { 4 } else { 0 };
+        let rc = guard(|| unsafe { mz_inflate(&mut s, fl) }).map_err(|pm| Violation::new(panic_sig("mz_inflate", &pm), format!("mz_inflate unwound: {pm}")))?;
         let (din, dout) = check_accounting("mz_inflate", before, &s)?;
         run.calls += 1;
         run.per_call.push((rc, before.1 as usize, din, before.4 as usize, dout, s.adler as u64));
@@ -84,7 +91,7 @@ pub fn mz_inflate_run(data: &[u8], zlib: bool, in_chunks: &[u32], out_sizes: &[u
         if rc < 0 && rc != -5 {
             break;
         }
-        if rc == -5 && all_offered && ipos == avail_end && dout < osz {
+        if rc == -5 && all_offered && ipos == avail_end && dout < osz && (din == 0 && dout == 0 || fl == 0) {
             break;
         }
         if opos == out_cap {
